@@ -381,6 +381,10 @@ func parseVarQuote(l *syntax.Lexer) (syntax.Token, error) {
 		if isIdentifierChar(ch) || syntax.ContainsRune(ch, syntax.IDContinue) {
 			literal = append(literal, ch)
 		} else if ch == BackTick {
+			// an identifier has at least one character
+			if len(literal) == 0 {
+				return syntax.Token{}, zerr.InvalidChar(ch, l.GetCursor())
+			}
 			l.Next()
 			return syntax.Token{
 				Type:     TypeIdentifier,
